@@ -2076,6 +2076,10 @@ export class ObjectRuntype extends BaseRuntype {
         optionalized.add(k);
       } else {
         setOwnProperty(properties, k, raw);
+        if (item instanceof OptionalFieldRuntype) {
+          // e.g. `b?: null`: there is no non-null branch to keep, but the property is still optional
+          optionalized.add(k);
+        }
       }
       popPath(ctx);
     }
